@@ -157,3 +157,92 @@ Example C08_ex_owned_with_delete_marker :
   map (fun r => (o_id r, o_dm r, completed r)) (objs s) = [(2, false, true); (3, true, true); (4, false, false)]%N /\
   map (fun p => (p_obj p, p_pid p)) (parts s) = [(2, 1); (4, 5)]%N.
 Proof. split; vm_compute; reflexivity. Qed.
+
+(* ===== collector / interleaving half (from b-gc; Proofs/MetaGc*.v) ===== *)
+(* Properties/C08gc.v — C08 "no referenced part content is ever deleted", garbage-collector and
+   interleaving half (Model/MetaGc.v over Model/Meta.v).  The operations half (every storage operation
+   preserves the part-protocol invariant, sequential histories) is Properties/C08.v by p-meta2; its
+   theorems step_parts_inv / step_dead / step_next_id_mono (Proofs/MetaPartsOps.v) are what discharges the
+   premises of the generic interleaving lemmas of Proofs/MetaGcSafe.v here.
+   Statements + exact-lemma proofs + Print Assumptions only.
+
+   Trace model: [run_trace ginit tr] for an ARBITRARY list [tr] of atomic steps
+     SOp i h o            one whole storage operation transaction (Meta.step, any operation, any arguments)
+     SObserve             GC: read the registry-vs-part-rows reconciliation (a snapshot that goes stale)
+     SReconcile k aba     GC: apply one pending observation (version-guarded registry write)
+     SPrune               GC: prune + backfill the dedup index
+     SList young          GC: list the store's part ids (a snapshot that goes stale); ANY subset may be
+                          exempted as "younger than the grace window" — including none
+     SCondemn k           GC: Condemn one listed id inside a transaction (+ delete its dedup entries)
+     SExtDel k/SExtSkip k GC: the transaction-free DeletePart of one condemned id, at any later time / failing
+     SCrashPublished c, SCrashBeforeCommit c, SCrashAfterCommit i h o   processes dying around a commit
+   The pools of pending observations / candidates / condemned ids are shared, steps pick any element:
+   every interleaving of any number of operation threads and collector threads is such a list. *)
+From Verif Require Import Bytes Codec Md5 Meta MetaGc MetaGcFinal.
+
+(* SAFETY: in every state reachable by any interleaving, every part row (of a committed version or a
+   pending upload) has its recorded bytes in the part store.  No grace window is assumed. *)
+Theorem C08_gc_safe : forall tr,
+  let g := run_trace ginit tr in
+  forall row, In row (parts (ms g)) -> store_get (store (ms g)) (p_pid row) = Some (p_content row).
+Proof. exact gc_safe. Qed.
+Print Assumptions C08_gc_safe.
+
+(* … hence every object row reads back completely: the reader's concatenation over its part rows succeeds
+   and yields exactly the recorded part contents *)
+Theorem C08_gc_every_version_readable : forall tr,
+  let g := run_trace ginit tr in
+  forall r, read_parts (ms g) (row_parts (ms g) r) = Some (concat (map p_content (row_parts (ms g) r))).
+Proof. exact gc_readable. Qed.
+Print Assumptions C08_gc_every_version_readable.
+
+(* the registry equals the number of part rows at every transaction boundary of every interleaving *)
+Theorem C08_gc_registry_exact : forall tr,
+  let s := ms (run_trace ginit tr) in
+  forall pid, reg_get (registry s) pid =
+              if N.eqb (live_rows s pid) 0 then None else Some (live_rows s pid).
+Proof. exact gc_registry_exact. Qed.
+Print Assumptions C08_gc_registry_exact.
+
+(* condemn_only_unreferenced: in ANY state (no invariant needed) Condemn answers true only for an id
+   without part rows, and touches neither part rows nor the store *)
+Theorem C08_condemn_only_unreferenced : forall s pid s',
+  condemn_check s pid = (true, s') ->
+  live_rows s pid = 0%N /\ parts s' = parts s /\ store s' = store s /\ reg_get (registry s') pid = None.
+Proof. exact gc_condemn_unreferenced. Qed.
+Print Assumptions C08_condemn_only_unreferenced.
+
+(* condemned_never_re_referenced: once an id is on a collector's condemned list it has no part row, no
+   registry row, no dedup entry, and is not a fresh id — in every continuation of the trace, i.e. whatever
+   operations and GC steps run before (or after) its external delete *)
+Theorem C08_condemned_never_re_referenced : forall tr1 tr2 pid,
+  let g1 := run_trace ginit tr1 in
+  In pid (g_cond g1) ->
+  let s := ms (run_trace g1 tr2) in
+  live_rows s pid = 0%N /\ reg_get (registry s) pid = None /\ (forall c, ~ In (c, pid) (dedup s))
+  /\ (pid < next_id s)%N.
+Proof. exact gc_condemned_dead. Qed.
+Print Assumptions C08_condemned_never_re_referenced.
+
+(* a stale reconciliation snapshot is harmless: in reachable states applying any pending observation
+   changes nothing (the registry is already exact when the observation is taken) *)
+Theorem C08_stale_reconciliation_is_noop : forall tr k aba,
+  let g := run_trace ginit tr in
+  ms (gstep_fn g (SReconcile k aba)) = ms g.
+Proof. exact gc_reconcile_noop. Qed.
+Print Assumptions C08_stale_reconciliation_is_noop.
+
+(* non-vacuity: a trace in which the collector really condemns and deletes something while operations run:
+   an orphan published by a crashed writer is listed, an identical body is then written (a fresh part, the
+   dead one is not shared), the orphan is condemned and deleted, the object stays readable *)
+Definition exb : bytes := B"b".
+Definition exk : bytes := B"k".
+Definition ex_trace : list gstep :=
+  [SOp 0 [] (OMb exb); SCrashPublished B"xx"; SObserve; SList []; SOp 1 [] (OPut exb exk B"xx" CRNone);
+   SCondemn 0; SReconcile 0 false; SPrune].
+Example C08_ex_condemned : g_cond (run_trace ginit ex_trace) = [1%N].
+Proof. vm_compute. reflexivity. Qed.
+Example C08_ex_after_delete :
+  let g := run_trace ginit (ex_trace ++ [SExtDel 0; SOp 2 [] (OGet exb exk VRNone)]) in
+  map fst (store (ms g)) = [2%N] /\ map p_pid (parts (ms g)) = [2%N].
+Proof. vm_compute. split; reflexivity. Qed.
